@@ -5,6 +5,7 @@
    system oracle (allocation + time + panic sweep) only. *)
 From RV Require Import Model.Base Model.RenderPrims Gen.Consts Gen.LeafFit Gen.LeafRender Model.Render.
 From RV Require Import Proofs.Render.
+From RV Require Import Gen.LeafMorph Model.Morph Proofs.Morph.
 Local Open Scope Z_scope.
 
 (* geom::fit_to_rect is the intersection *)
@@ -64,6 +65,14 @@ Theorem C02_filter_images_same_size_refuted :
 Proof. exact filter_sizes_agree_refuted. Qed.
 Print Assumptions C02_filter_images_same_size_refuted.
 
+(* feMorphology: the window of morphology::apply (source-derived morph_columns / morph_rows) is capped by the image
+   it scans, whatever radius the document contains; the work is at most (w*h)^2 window cells - with
+   C02_layer_within_max, at most (k^2 W H)^2: bounded by the canvas alone (quartic: class morphology-cost, F30) *)
+Theorem C02_morphology_window_bounded : forall rx ry w h, 0 <= w -> 0 <= h ->
+  0 <= morph_columns rx w <= w /\ 0 <= morph_rows ry h <= h /\ 0 <= morph_ops rx ry w h <= (w * h) * (w * h).
+Proof. exact morph_ops_bounded. Qed.
+Print Assumptions C02_morphology_window_bounded.
+
 (* ------------------------------------------------------------------ non-vacuity *)
 (* a translucent group half outside a 100x100 canvas gets a layer *)
 Example C02_nv_half_outside :
@@ -78,6 +87,9 @@ Proof. vm_compute. reflexivity. Qed.
 Example C02_nv_huge_skipped :
   layer_box (mk_qrect 0 0 (30000000000 # 1) (50 # 1)) true (mk_irect (-200) (-200) 500 500) = LSkip.
 Proof. vm_compute. reflexivity. Qed.
+Example C02_nv_morph_huge_radius :
+  morph_columns (3000000000 # 1) 6 = 6 /\ morph_chan false (1000000000 # 1) (1000000000 # 1) 3 2 [0; 10; 0; 0; 0; 5] = [10; 10; 10; 10; 10; 10].
+Proof. split; vm_compute; reflexivity. Qed.
 Example C02_nv_fit_none :
   fit_to_rect (mk_irect 600 0 10 10) (mk_irect (-200) (-200) 500 500) = None.
 Proof. vm_compute. reflexivity. Qed.
